@@ -45,6 +45,7 @@ def gen_case(rng, tier):
     prof["max_stmts"] = 14
     prof["top_stmts"] = rng.randint(1, 4)
     prof["llvm_call"] = False
+    prof["index_vals"] = rng.choice([0, 0, 0.2])
     case = {"cfg": cfg, "stage": rng.choice([0, 1, 2, 2, 3, 3]), "prof": prof, "gseed": rng.randrange(1 << 30)}
     case["decl_shift"] = rng.choice([None, None, None, 16, 64, -32])
     if cfg["kind"] == "gemmx":
